@@ -987,9 +987,29 @@ def r10_4b(prog, chk):
                         x["c"][0]["k"] == "DeclRefExpr" and x["c"][0].get("d") in statics]
             if len(assigned) < 2:
                 continue
-            # the guard must compare something with a static (a memo key), else this is not a memo
+            # a memo: the guard compares a non-static value V with a static key K (==, != or isEqual) and the block stores K = V;
+            # (code translated from Fortran declares every local static: a test on such a variable is not a memo)
             cond_refs = {y.get("d") for y in walk(cond) if y["k"] == "DeclRefExpr"}
-            if not (cond_refs & set(statics)):
+            keys = set()
+            for y in walk(cond):
+                pair = None
+                if y["k"] == "BinOp" and y.get("op") in ("==", "!=") and len(y.get("c") or []) == 2:
+                    pair = y["c"]
+                elif y["k"] == "Call" and (y.get("callee") or "") in ("isEqual", "areEqual") and len(call_args(y)) >= 2:
+                    pair = call_args(y)[:2]
+                if not pair:
+                    continue
+                ds = []
+                for e_ in pair:
+                    while e_ is not None and e_["k"] == "Cast":
+                        e_ = e_["c"][0]
+                    ds.append(e_.get("d") if e_ is not None and e_["k"] == "DeclRefExpr" else None)
+                for k_, v_ in ((ds[0], ds[1]), (ds[1], ds[0])):
+                    if k_ in statics and v_ is not None and v_ not in statics and any(
+                            x["c"][0].get("d") == k_ and x["c"][1] is not None and any(z["k"] == "DeclRefExpr" and z.get("d") == v_ for z in walk(x["c"][1]))
+                            for x in assigned):
+                        keys.add(k_)
+            if not keys:
                 continue
             # parameters the refreshed values depend on (through locals defined in the block or before it)
             defs = {}
